@@ -118,6 +118,20 @@ def run_case(ns, mon, case):
         }
         for o in sg.unbind(m22, 0):
             res[f"unbind{len(res)}"] = (o, True)
+        # nn ops where exactly one (non-first) operand requires grad
+        cb = T(np.array([[1.0, 2.0], [3.0, 5.0], [0.5, 0.1]]))
+        wreq, breq = T(np.array([1.0, 2.0]), requires_grad=True), T(np.array([0.0, 1.0]), requires_grad=True)
+        wc, bc = T(np.array([1.0, 2.0])), T(np.array([0.0, 1.0]))
+        res["batch_norm(only bias req)"] = (sg.batch_norm(cb, wc, breq, None, None, True), True)
+        res["batch_norm(only weight req)"] = (sg.batch_norm(cb, wreq, bc, None, None, True), True)
+        res["batch_norm(no weight, bias req)"] = (sg.batch_norm(cb, None, breq, None, None, True), True)
+        res["linear(only bias req)"] = (sg.linear(cb, T(np.ones((3, 2))), T(np.zeros(3), requires_grad=True)), True)
+        res["linear(only weight req)"] = (sg.linear(cb, T(np.ones((3, 2)), requires_grad=True), T(np.zeros(3))), True)
+        res["conv1d(only bias req)"] = (sg.conv1d(T(np.ones((1, 1, 4))), T(np.ones((2, 1, 2))), T(np.zeros(2), requires_grad=True)), True)
+        res["mse(pred req)"] = (sg.mse_loss(x64, c64), True)
+        res["stack(const first)"] = (sg.stack([c64, x64], 0), True)
+        res["concat(const first)"] = (sg.concat([c64, x64], 0), True)
+        res["addmm(only a req)"] = (sg.addmm(T(np.zeros((2, 2)), requires_grad=True), T(np.ones((2, 2))), T(np.ones((2, 2)))), True)
         for name, (t, anyreq) in res.items():
             want = g and anyreq
             if bool(t.requires_grad) != want:
@@ -215,6 +229,15 @@ def run_case(ns, mon, case):
             bad("release:root-released", "the root backward was called on lost its gradient")
         if kept._grad is None:
             bad("release:retain_grad-ignored", "an intermediate marked with retain_grad() released its gradient")
+        # a tensor that was the root of an earlier call and is an interior node of a later one must be released by the later call
+        out2 = (out * 2.0 + xl.sum()).sum()
+        retain_now = model["retain"]
+        out2.backward()
+        if not retain_now and out._grad is not None:
+            bad("release:former-root-kept-as-interior", "a former root that is an interior node of a later backward call kept its gradient")
+        if xl._grad is None or not np.allclose(xl._grad, 3 * (6 * xl.data ** 2 + 6) + 1):
+            bad("release:leaf-gradient-after-second-call", "leaf gradient after a second backward through a former root is wrong",
+                got=None if xl._grad is None else xl._grad.tolist())
         if model["retain"]:
             if h1._grad is None or h2._grad is None:
                 bad("release:retain_grads-context-ignored", "intermediate gradients of a graph built and differentiated under retain_grads were released")
